@@ -1,8 +1,8 @@
 (* C07 - Values from the program are reduced to the width of the signal they drive.
    Property theorems only; the proofs are in proofs/MaskProof.v. *)
-From DTR Require Import Prelude I64 Ast Bind.
+From DTR Require Import Prelude I64 Ast FramedMap Lexer Parser Bind Eval Stmt Iter WfSpec ByNameSpec.
 From DTR Require Import GeneratedTables.
-From DTR.proofs Require Import I64Facts MaskProof TablesProof.
+From DTR.proofs Require Import I64Facts MaskProof TablesProof IterLogProof RunRefineE IterLogProofE WidthProof.
 Open Scope Z_scope.
 
 (* every width 1..64, every 64-bit value: the value modulo 2^bits, read as two's complement
@@ -30,6 +30,103 @@ Proof. intros v. reflexivity. Qed.
 Theorem C07_mask_is_the_source : forall bits, bit_mask bits = gen_bit_mask bits.
 Proof. exact bit_mask_pinned. Qed.
 
+(* the reduced value fits the width: 0 <= v < 2^bits for bits < 64 (width 0: the value is 0) *)
+Theorem C07_mask_lands_in_the_width :
+  forall (bits : N) (n : Z), in_width bits (mask_value bits n).
+Proof. exact mask_value_in_width. Qed.
+
+(* fitting the width = being a reduced value *)
+Theorem C07_in_width_iff_reduced :
+  forall (bits : N) (v : Z), in_width bits v <-> (exists n : Z, v = mask_value bits n).
+Proof. exact in_width_iff_masked. Qed.
+
+(* RUN LEVEL, for every state, driver, generator, write_input variant and number of steps, also for a caller that continues after error items: every numeric input entry of every yielded row fits the width of its signal or is the signal's declared default, passed on verbatim and unflagged (a default does not originate from the program), and every numeric EXPECTED value fits the width of its signal *)
+Theorem C07_every_row_of_every_run :
+  forall (tc : testcase) (G : gen) (DE : Type) (D : driver DE) (w_default : bool) 
+  (fuel n : nat) (st0 : istate),
+  Forall (item_rows DE row_reduced_or_default) (fst (collect_e G DE D w_default tc fuel n st0)).
+Proof. exact every_row_reduced_or_default. Qed.
+
+(* when the caller's defaults fit their signals, every row is in width outright *)
+Theorem C07_every_row_in_width :
+  forall (G : gen) (DE : Type) (D : driver DE) (w_default : bool) (p : parsed) 
+  (sigs0 : list signal) (tc : testcase) (fuel n : nat) (st0 : istate),
+  with_signals p sigs0 = Ok tc ->
+  defaults_in_width sigs0 ->
+  try_new DE D tc = NewOk DE st0 ->
+  Forall (fun item : item_view DE => match item with
+  | VRow r => row_in_width r
+  | _ => True
+  end) (fst (collect_e G DE D w_default tc fuel n st0)).
+Proof. exact every_row_in_width. Qed.
+
+(* the same for every vector handed to the driver, the calls behind driver-error and unusable-answer items included *)
+Theorem C07_every_call_of_every_run :
+  forall (tc : testcase) (G : gen) (DE : Type) (D : driver DE) (w_default : bool) 
+  (fuel n : nat) (st0 : istate) (items : list (item_view DE)) (st' : istate),
+  collect_e G DE D w_default tc fuel n st0 = (items, Some st') ->
+  exists calls : list call, i_log st' = i_log st0 ++ calls /\ Forall call_reduced_or_default calls.
+Proof. exact every_call_reduced_or_default. Qed.
+
+(* functional form at run level: a numeric input entry is mask_value (bits of its signal) of the number in the column of that name *)
+Theorem C07_inputs_are_the_reduced_cells :
+  forall (G : gen) (DE : Type) (D : driver DE) (w_default : bool) (p : parsed) 
+  (sigs0 : list signal) (tc : testcase) (fuel n : nat) (st0 : istate),
+  with_signals p sigs0 = Ok tc ->
+  Forall
+  (fun item : item_view DE =>
+  match item with
+  | VRow r => inputs_masked_cells (p_signals p) r
+  | _ => True
+  end) (fst (collect_e G DE D w_default tc fuel n st0)).
+Proof. exact every_row_inputs_masked_cells. Qed.
+
+(* one step in full: value = reduced cell of the column of that name / Z / the default when the header omits the signal; the changed flag compares the CELLS (before reduction) with the previous row's *)
+Theorem C07_row_inputs_by_name_with_flags :
+  forall (G : gen) (DE : Type) (D : driver DE) (w_default : bool) (p : parsed) 
+  (sigs0 : list signal) (tc : testcase) (fuel : nat) (st : istate) (row : data_row)
+  (st' : istate),
+  with_signals p sigs0 = Ok tc ->
+  inext G DE D w_default tc fuel st = ItRow DE row st' ->
+  exists entries : list dentry,
+  i_prev st' = Some entries /\
+  inputs_spec (p_signals p) entries (check_changed_entries (i_prev st) entries) (tc_signals tc) =
+  Some (dr_inputs row) /\
+  (forall e : in_entry,
+  In e (dr_inputs row) ->
+  match column_named (p_signals p) (sname (ie_sig e)) with
+  | Some j =>
+  exists d : dentry,
+  nth_error entries j = Some d /\
+  match d with
+  | DNum n => ie_val e = IVal (mask_value (sbits (ie_sig e)) n)
+  | DZ => ie_val e = IZ
+  | _ => False
+  end /\
+  match i_prev st with
+  | Some prev =>
+  exists d' : dentry, nth_error prev j = Some d' /\ ie_changed e = negb (dentry_eqb d d')
+  | None => ie_changed e = true
+  end
+  | None => is_default_entry e
+  end).
+Proof. exact inext_row_inputs_by_name. Qed.
+
+(* the constructor's vector: the declared defaults, verbatim (in width iff the caller's defaults are) *)
+Theorem C07_defaults_are_passed_on_unreduced :
+  forall (p : parsed) (sigs0 : list signal) (tc : testcase),
+  with_signals p sigs0 = Ok tc ->
+  exists l : list in_entry,
+  generate_default_input_entries tc = Ok l /\
+  defaults_spec (tc_signals tc) = Some l /\
+  map ie_sig l = filter is_input (tc_signals tc) /\
+  Forall is_default_entry l /\
+  (Forall input_entry_in_width l <->
+  (forall (s : signal) (n : Z),
+  In s (tc_signals tc) -> default_value s = Some (IVal n) -> in_width (sbits s) n)).
+Proof. exact constructor_vector_unreduced. Qed.
+
+
 Check C07_reduced_modulo_width : forall bits n, (1 <= bits <= 64)%N -> i64 n ->
   mask_value bits n = to_i64 (n mod 2 ^ Z.of_N bits).
 
@@ -38,3 +135,6 @@ Example C07_example : mask_value 8 (-1) = 255 /\ mask_value 64 (-1) = -1 /\ i64 
 Proof. unfold i64, two63. repeat split; try reflexivity; lia. Qed.
 
 Print Assumptions C07_reduced_modulo_width.
+Print Assumptions C07_every_row_of_every_run.
+Print Assumptions C07_every_call_of_every_run.
+Print Assumptions C07_inputs_are_the_reduced_cells.
